@@ -64,7 +64,9 @@ def build(case):
     for dr in case["drules"]: M.create_division_rule(dr[0], dict({"threshold": dr[1]}, **({"noise": dr[2]} if len(dr) > 2 else {})), vs)
     for kr in case["krules"]: M.create_death_rule("species", dict({"specie": kr[1], "threshold": kr[2], "comp": kr[3]}, **({"noise": kr[4]} if len(kr) > 4 else {})))
     for kind, g, k, sp in case["vevents"]: M.create_volume_event(kind, {"growth_rate": g}, "massaction", {"k": k, "species": sp})
-    for k, sp in case["devents"]: M.create_division_event("division", {}, "massaction", {"k": k, "species": sp}, vs)
+    se = case.get("splitter_ev")
+    vs_ev = LineageVolumeSplitter(M, options=dict(se["options"]), partition_noise=se["noise"]) if se else vs
+    for k, sp in case["devents"]: M.create_division_event("division", {}, "massaction", {"k": k, "species": sp}, vs_ev)
     for k, sp in case["kevents"]: M.create_death_event("death", {}, "massaction", {"k": k, "species": sp})
     M.py_initialize()
     return M
@@ -187,6 +189,14 @@ def gen_lineage(rng):
     c["family"] = "lineage_replay"; c["cell"] = {"V": 1.0, "t0": 0.0}      # py_SimulateCellLineage's default initial cell
     c["splitter"] = {"options": {"A": rng.choice(["binomial", "perfect", "duplicate"]), "B": rng.choice(["binomial", "perfect", "duplicate"]),
                                  "volume": rng.choice(["binomial", "binomial", "perfect", "duplicate"])}, "noise": rng.choice([0.0, 0.2, 0.5])}
+    # division events may come with a splitter of their own, next to division rules with theirs (which splitter applies is decided by
+    # an index that counts rules first, then events -- seeded change S4_C19 lost the offset); in half of these the rules can never fire
+    if c["devents"] and rng.random() < 0.6:
+        if not c["drules"]: c["drules"] = [["time", "thr_t"]]
+        ro = c["splitter"]["options"]
+        flip = {"binomial": "duplicate", "perfect": "duplicate", "duplicate": "binomial"}
+        c["splitter_ev"] = {"options": {"A": flip[ro["A"]], "B": rng.choice([flip[ro["B"]], ro["B"]]), "volume": rng.choice(["binomial", "perfect"])}, "noise": rng.choice([0.0, 0.3])}
+        if rng.random() < 0.5: c["rules_cannot_fire"] = True
     dt = rng.choice([0.25, 0.5]); n = rng.randint(6, 16)
     # decimal grids: (t_k - t_0)/dt is not exactly k for some k (43, 81, 86, ... at dt = 0.1): a daughter's grid must still start at the
     # first point not before the mother's last time (seeded change S3_C19: index computed by a truncating division)
@@ -209,6 +219,9 @@ def gen_lineage(rng):
         c["vevents"] = [ev for ev in c["vevents"] if ev[0] != "multiplicative volume"]
         if c["splitter"]["options"]["volume"] == "duplicate": c["splitter"]["options"]["volume"] = "binomial"
         if len(c["times"]) > 40: c["parameters"]["kde"] = min(c["parameters"]["kde"], 0.1)
+    if c.get("rules_cannot_fire"):
+        c["parameters"]["thr_t"] = 1000.0; c["parameters"]["thr_v"] = 1000.0; c["parameters"]["thr_d"] = 1000.0
+        c["drules"] = [dr[:2] for dr in c["drules"]]      # no noise term that could reach the threshold
     return c
 
 def impl_lineage(case):
@@ -256,9 +269,14 @@ def driver_line_lineage(case, r):
     s2i = r["s2i"]; so = case["splitter"]; order = sorted(s2i, key=lambda s: s2i[s])
     vm = {"binomial": "0", "duplicate": "1", "perfect": "2"}[so["options"].get("volume", "binomial")]
     perfect = [str(s2i[s]) for s in order if so["options"].get(s, "binomial") == "perfect"]; binom = [str(s2i[s]) for s in order if so["options"].get(s, "binomial") == "binomial"]
-    one = [vm, str(len(perfect))] + perfect + [str(len(binom))] + binom + [fhex(so["noise"])]
+    def one_of(so_):
+        vm_ = {"binomial": "0", "duplicate": "1", "perfect": "2"}[so_["options"].get("volume", "binomial")]
+        pf = [str(s2i[s]) for s in order if so_["options"].get(s, "binomial") == "perfect"]; bi = [str(s2i[s]) for s in order if so_["options"].get(s, "binomial") == "binomial"]
+        return [vm_, str(len(pf))] + pf + [str(len(bi))] + bi + [fhex(so_["noise"])]
+    one = one_of(so); one_ev = one_of(case.get("splitter_ev") or so)
     nsp = len(case["drules"]) + len(case["devents"])
-    tail = [str(nsp)] + one * nsp + G.flist(case["times"]) + ["1", fhex(1.0), fhex(0.0)]
+    # the division index counts the division rules first, then the division events: each has its splitter
+    tail = [str(nsp)] + one * len(case["drules"]) + one_ev * len(case["devents"]) + G.flist(case["times"]) + ["1", fhex(1.0), fhex(0.0)]
     raws = r.get("raws") or ["0"]
     return " ".join(head + tail + [str(len(raws))] + raws)
 
@@ -310,6 +328,23 @@ def oracle_lineage(case, r):
             tm = H(c["times"])[-1]
             for j in d:
                 if H(cells[j]["times"])[0] < tm: return "partition of the last state: daughter %d of cell %d starts at %r before the mother's last time %r" % (j, k, H(cells[j]["times"])[0], tm)
+            # ... from a partition of her last state by the splitter of a mechanism that can have fired (a daughter's first row, when
+            # reported for the mother's last time itself, is the state it was born with: no reaction precedes it)
+            if all(H(cells[j]["times"])[0] == tm for j in d):
+                cands = ([("the division rules' splitter", opts)] if case["drules"] and not case.get("rules_cannot_fire") else []) + \
+                        ([("the division events' splitter", (case.get("splitter_ev") or case["splitter"])["options"])] if case["devents"] else [])
+                vm_, va_, vb_ = H(c["vols"])[-1], H(cells[d[0]]["vols"])[0], H(cells[d[1]]["vols"])[0]
+                def fits(o):
+                    for s_, i_ in s2i.items():
+                        if s_ not in ("A", "B"): continue
+                        if o.get(s_, "binomial") == "duplicate":
+                            if not (a[i_] == m[i_] and b[i_] == m[i_]): return False
+                        elif abs(a[i_] + b[i_] - m[i_]) > 1e-9 * max(1.0, abs(m[i_])): return False
+                    if o.get("volume", "binomial") == "duplicate": return abs(va_ - vm_) <= 1e-9 * vm_ and abs(vb_ - vm_) <= 1e-9 * vm_
+                    return abs(va_ + vb_ - vm_) <= 1e-9 * vm_
+                if cands and not any(fits(o) for _, o in cands):
+                    return "partition of the last state: cell %d ends with %r (volume %r), its daughters start with %r (%r) and %r (%r): not a partition by %s" % (
+                        k, m, vm_, a, va_, b, vb_, " nor by ".join("%s %r" % (n_, o) for n_, o in cands))
         if c["parent"] >= 0 and k not in cells[c["parent"]]["daughters"]: return "links: cell %d names parent %d which does not list it" % (k, c["parent"])
     if sum(1 for c in cells if c["parent"] < 0) != 1: return "links: %d roots for one initial cell" % sum(1 for c in cells if c["parent"] < 0)
     return None
